@@ -291,28 +291,37 @@ class Interp:
         a = self.site(node, tag)
         st.forget_all(a)
         if st.cond:
-            st.cond = [c for c in st.cond if a != c[0] and all(a not in e.t for e in c[2] + c[3])]
+            st.cond = [c for c in st.cond if a != c[0] and all(a not in e.t for e in c[2] + c[3])
+                       and all(a != e[0] for e in c[4])]
         return Lin.sym(a)
 
     def fire_conds(self, st):
         if not st.cond:
             return
+        # canonical form of every location with a decisive enum fact, computed once
+        canon = {}
+
+        def can(sym):
+            k = canon.get(sym)
+            if k is None:
+                k = canon[sym] = st.reduce(Lin.sym(sym)).key()
+            return k
+        cands = [s for s, e in st.enums.items() if not s.startswith("$")]
         keep = []
         for c in st.cond:
-            key, tok, eqs, ineqs = c
-            fired = False
-            dead = False
-            cands = [key] + [s for s in st.enums if not s.startswith("$") and s != key]
+            key, tok, eqs, ineqs, enums = c
+            fired = dead = False
+            kk = can(key)
             for s in cands:
-                e = st.enum_get(s)
+                if s != key and can(s) != kk:
+                    continue
+                e = st.enums.get(s)
                 if e is None:
                     continue
-                if s != key and st.entails_eq(Lin.sym(s) - Lin.sym(key)) != "yes":
-                    continue
-                if e[0] == "in" and e[1] == frozenset([tok]):
+                if e[0] == "in" and len(e[1]) == 1 and tok in e[1]:
                     fired = True
                     break
-                elif (e[0] == "in" and tok not in e[1]) or (e[0] == "notin" and tok in e[1]):
+                if (e[0] == "in" and tok not in e[1]) or (e[0] == "notin" and tok in e[1]):
                     dead = True
                     break
             if fired:
@@ -320,13 +329,23 @@ class Interp:
                     st.add_eq(q)
                 for q in ineqs:
                     st.add_ineq(q)
+                canon.clear()
+                for a, vals in enums:
+                    st.enum_meet(a, "in", vals)
+                    ka = can(a)
+                    # aliases of the atom (locals it was unpacked into) learn the same
+                    for s2 in list(st.rows) + [x for r in st.rows.values() for x in r.t]:
+                        if not s2.startswith("@") and s2 != a and can(s2) == ka:
+                            st.enum_meet(s2, "in", vals)
             elif not dead:
                 keep.append(c)
         st.cond = keep
 
     def summarised_call(self, name, node, args, st):
-        """instantiate the return-case summary of a pure planner function"""
-        cases = self.summaries[name]
+        """instantiate the return-case summary of a pure function.
+        summary = (shape, cases); shape is a nested tuple of slot names, a case is
+        (token of slot 'k', eqs, ineqs, enums) over slot names and 'a0' (first argument)"""
+        shape, cases = self.summaries[name]
         # atoms are named after the argument text, so that the two arms of a
         # selection site (memoised / tabulated planner, same arguments) produce
         # the same facts and survive the join
@@ -337,26 +356,35 @@ class Interp:
         else:
             text = ast.unparse(node.slice)
         text = "".join(text.split())
+        fam = name.rstrip("[]").split("_")[0] if name.startswith("mixed") or name.endswith("[]") else name
 
         def atom(tag):
-            a = f"@plan[{text}].{tag}"
+            a = f"@{'plan' if fam in ('mixed', 'schedule') else fam}[{text}].{tag}"
             st.forget_all(a)
             if st.cond:
-                st.cond = [c for c in st.cond if a != c[0] and all(a not in e.t for e in c[2] + c[3])]
-            return Lin.sym(a)
-        a0 = atom("a0")
+                st.cond = [c for c in st.cond if a != c[0] and all(a not in e.t for e in c[2] + c[3])
+                           and all(a != e[0] for e in c[4])]
+            return a
+        ren = {"a0": atom("a0")}
         if args and isinstance(args[0], Lin):
-            st.add_eq(a0 - args[0])
-        rets = [atom(f"r{k}") for k in range(3)]
-        ren = {"n": pure_sym(a0), "len": pure_sym(rets[1])}
+            st.add_eq(Lin.sym(ren["a0"]) - args[0])
+
+        def build(sh):
+            if isinstance(sh, tuple):
+                return tuple(build(x) for x in sh)
+            ren[sh] = atom(sh)
+            return Lin.sym(ren[sh])
+        ret = build(shape)
+
+        def rn(l):
+            return Lin({ren[k]: v for k, v in l.t.items()}, l.c)
         toks = []
-        for tok, eqs, ineqs in cases:
+        for tok, eqs, ineqs, enums in cases:
             toks.append(tok)
-            def rn(l):
-                return Lin({ren[k]: v for k, v in l.t.items()}, l.c)
-            st.cond.append((pure_sym(rets[0]), tok, tuple(rn(q) for q in eqs), tuple(rn(q) for q in ineqs)))
-        st.enum_meet(pure_sym(rets[0]), "in", toks)
-        return tuple(rets)
+            st.cond.append((ren["k"], tok, tuple(rn(q) for q in eqs), tuple(rn(q) for q in ineqs),
+                            tuple((ren[a], frozenset(v)) for a, v in enums)))
+        st.enum_meet(ren["k"], "in", toks)
+        return ret
 
     def ev_subscript(self, node, st):
         base = node.value
